@@ -292,8 +292,10 @@ func (vm *VM) Run() error {
 				val = a.Elements[index]
 			} else if m, ok := iter.(mapVal); ok && index < len(m.order) {
 				val = m.order[index]
-			} else if s, ok := iter.(stringVal); ok && index < len(s) {
-				val = s[index : index+1]
+			} else if s, ok := iter.(stringVal); ok {
+				if runes := []rune(string(s)); index < len(runes) { // iterate characters, not bytes
+					val = stringVal(runes[index : index+1])
+				}
 			}
 			// val != nil means we're still going
 			if val != nil && hasLoopVar != 0 {
